@@ -1984,6 +1984,7 @@ func (ls *LState) Resume(th *LState, fn *LFunction, args ...LValue) (ResumeState
 		for _, arg := range args {
 			th.Push(arg)
 		}
+		th.adjustResumedValues(len(args))
 	}
 	top := ls.GetTop()
 	threadRun(th)
